@@ -806,6 +806,7 @@ def run(ctx: common.Ctx):
         f"U.1.0 un\nD.1.0 de\nD.1.0[{w(1, 4)}] dea\nU.1.0[<={w(1, 4)}] una\nE.1.0 e\n"
         f"uint8 C1 = {w(0, 255)}\nfloat32 C2 = 1.5\nbool C3 = true\nint{w(8, 64)} C4 = -{w(0, 100)}\n@sealed\n")
     (ns_dir / "Svc.1.0.dsdl").write_text(f"uint{w(1, 64)} q\n@sealed\n---\nuint{w(1, 64)} r\nvoid{w(1, 8)}\n@extent {8 * w(8, 20)}\n")
+    (ns_dir / "DU.1.0.dsdl").write_text(f"@union\nuint{w(1, 64)} a\nD.1.0 d\n@extent {8 * w(20, 40)}\n")
     types = pydsdl.read_namespace(str(ns_dir), [])
     from nunavut.lang import LanguageContextBuilder
     lctx = LanguageContextBuilder(include_experimental_languages=True).set_target_language(rng.choice(["c", "cpp", "py", "html"])).create()
@@ -968,6 +969,8 @@ def run(ctx: common.Ctx):
         ustems = {pathlib.PurePosixPath(x).stem for x in (fs or []) if x.endswith(SUFFIX)}
         if variant == "userdirs":
             ustems = ms.user_stems()   # from the harness' own bookkeeping of ALL directories, not from the loader's listing
+        if variant == "userdir":
+            ustems = {pathlib.PurePosixPath(x).stem for x in src.listing(True) if x.endswith(SUFFIX)}
         bstems = {pathlib.PurePosixPath(x).stem for x in (pk or []) if x.endswith(SUFFIX)}
         if variant == "userdirs":
             f2_lines[-1] = "seqd @ " + dirs_field([ms.listing(i) for i in range(len(ms.dirs))]) + " " + opt_files(pk) + " " + ",".join(str(index_of[type(v)]) for v in seq)
@@ -993,6 +996,7 @@ def run(ctx: common.Ctx):
         model = pm if isinstance(pm, str) else [None if x is None else pathlib.PurePosixPath(x).name for x in pm[0]]
         if model != impl:
             ctx.disagree("filter_type_to_template", meta, model, impl)
+    generation_stream(ctx, ask, types, ns_dir, index_of, by_name)
     phase("F")
     # ================================================================================================================
     # G. the environment
@@ -1003,6 +1007,79 @@ def run(ctx: common.Ctx):
         run_env_stream(ctx, ask, l_ns, l_ctx, corpus)
     phase("G")
 
+
+
+# ======================================================================================================================
+# F4. the product path end to end: which template RENDERS each generated type
+# ======================================================================================================================
+GEN_CLASSES = ["SerializableType", "CompositeType", "StructureType", "UnionType", "DelimitedType", "ServiceType"]
+
+
+def generate_with_sentinels(ctx, types, ns_dir, present, tag, followlinks, lang="c"):
+    """generate_all() over a user template set in which <Class>.j2 renders `SENTINEL <Class> <T.full_name>`.
+    -> [(type object, class named by the template that rendered it | None)]"""
+    import re
+    import nunavut
+    from nunavut.jinja import DSDLCodeGenerator
+    from nunavut.lang import LanguageContextBuilder
+    gdir = ctx.scratch / "gentpl"
+    shutil.rmtree(gdir, ignore_errors=True)
+    gdir.mkdir()
+    for c in present:
+        (gdir / (c + SUFFIX)).write_text("SENTINEL " + c + " {{ T.full_name }}\n")
+    lctx = LanguageContextBuilder(include_experimental_languages=True).set_target_language(lang).create()
+    ns = nunavut.build_namespace_tree(types, str(ns_dir), str(ctx.scratch / "genout" / tag), lctx)
+    g = DSDLCodeGenerator(ns, templates_dir=gdir, followlinks=followlinks)
+    g.generate_all()
+    out = []
+    for t, path in ns.get_all_datatypes():
+        m = re.search(r"SENTINEL (\w+) (\S+)", pathlib.Path(path).read_text())
+        out.append((t, m.group(1) if m and m.group(2) == t.full_name else None))
+    return out
+
+
+def generation_stream(ctx, ask, types, ns_dir, index_of, by_name):
+    """Every subset of the composite-type class templates (Any.j2 always there) as the user's template set; every parsed type
+    (sealed / delimited structure, sealed / delimited union, service) must be rendered by the template named after the nearest
+    class of ITS OWN class's chain."""
+    rng = ctx.rng
+    lines, impls, metas = [], [], []
+    subsets = [c for k in range(len(GEN_CLASSES) + 1) for c in itertools.combinations(GEN_CLASSES, k)]
+    if ctx.quick:
+        subsets = [sub for i, sub in enumerate(subsets) if "DelimitedType" in sub or i % 2 == 0]
+    seen_classes = set()
+    for k, sub in enumerate(subsets):
+        present = ["Any"] + list(sub)
+        lang = ("c", "py", "cpp", "html")[k % 4]
+        rendered = generate_with_sentinels(ctx, types, ns_dir, present, str(k), followlinks=bool(k % 2), lang=lang)
+        for t, got in rendered:
+            cls = type(t)
+            seen_classes.add(cls.__name__ + ("<" + type(t.inner_type).__name__ + ">" if cls.__name__ == "DelimitedType" else ""))
+            exp = expected_resolution(cls, set(present), set())
+            ctx.case(("generate", tuple(present), t.full_name), True)
+            ctx.count("generated-" + cls.__name__)
+            if got != (exp[0] if exp else None):
+                ctx.fail({"kind": "generated-with-wrong-template", "class": cls.__name__},
+                         f"{t.full_name} (a {cls.__name__}) was rendered by {got}.j2; the user's template set has {sorted(present)}, the nearest class of "
+                         f"{cls.__name__}'s chain with a template is {exp[0] if exp else None}",
+                         {"stream": "generate", "templates": present, "type": t.full_name, "class": cls.__name__, "rendered_by": got,
+                          "expected": exp[0] if exp else None, "followlinks": bool(k % 2), "language": lang})
+            if cls in index_of:
+                lines.append("seq new @ " + enc_list(sorted(c + SUFFIX for c in present)) + " ! " + str(index_of[cls]))
+                impls.append(got)
+                metas.append({"templates": present, "type": t.full_name, "class": cls.__name__})
+    need = {"StructureType", "UnionType", "ServiceType", "DelimitedType<StructureType>", "DelimitedType<UnionType>"}
+    if not need <= seen_classes:
+        raise RuntimeError(f"generation stream: the parsed namespace lacks {sorted(need - seen_classes)}")
+    for ln, impl, meta, m in zip(lines, impls, metas, ask(lines)):
+        if m is None:
+            continue
+        ctx.traces += 1
+        pm = parse_seq_answer(m)
+        model = pm if isinstance(pm, str) else (None if pm[0][0] is None else pathlib.PurePosixPath(pm[0][0]).stem)
+        if model != impl:
+            ctx.disagree("generate_all-template", meta, model, impl)
+    ctx.extra["generation_stream"] = {"template_sets": len(subsets), "rendered_types": len(lines), "kinds_of_type": sorted(seen_classes)}
 
 
 # ======================================================================================================================
@@ -1479,10 +1556,34 @@ def run_env_stream(ctx, ask, root_ns, lctx, corpus):
             n = rng.choice(["is_", "filter_", "uses_"])  # nothing left after the prefix
         return n
 
-    def build(entry, allow, ug, uf, ut):
+    import functools
+
+    def user_value(ref, kind, i, n, vkind):
+        """The user's object for additional item `n`.  marker: an unrelated callable; samename: a NEW function whose __name__ is
+        that of the built-in callable registered under (the conventional name of) `n`; partial: functools.partial of such a
+        function; sameobject: the object a reference environment holds under that name."""
+        if vkind == "marker":
+            return Marker(i)
+        cur = {"g": ref.env.globals, "f": ref.env.filters, "t": ref.env.tests}[kind].get(strip_prefix(n) if kind != "g" else n)
+        nm = getattr(getattr(cur, "func", cur), "__name__", None)
+        if cur is None or not isinstance(nm, str) or not nm.isidentifier():
+            return Marker(i)
+        if vkind == "sameobject":
+            return cur
+
+        def same_named(*a, **k):
+            return True
+        same_named.__name__ = same_named.__qualname__ = nm
+        same_named.i = i
+        if vkind == "partial":
+            pf = functools.partial(same_named)
+            return pf
+        return same_named
+
+    def build(entry, allow, ug, uf, ut, vkind="marker"):
         """Real construction. Returns ('ok', env) or ('err', kind, name)."""
-        mk = lambda names: {n: Marker(i) for i, n in enumerate(names)}  # noqa: E731
-        g, f, t = mk(ug), mk(uf), mk(ut)
+        mk = lambda kind, names: {n: user_value(refs[entry], kind, i, n, vkind) for i, n in enumerate(names)}  # noqa: E731
+        g, f, t = mk("g", ug), mk("f", uf), mk("t", ut)
         try:
             env = factories[entry](allow, g if ug else None, f if uf else None, t if ut else None)
         except RuntimeError as e:
@@ -1496,10 +1597,13 @@ def run_env_stream(ctx, ask, root_ns, lctx, corpus):
             return ("err", "other", f"{type(e).__name__}: {str(e)[:80]}"), (g, f, t)
         return ("ok", env), (g, f, t)
 
-    def owners(coll, markers):
+    def owners(coll, markers, vkind="marker"):
+        # sameobject: the user's object IS a built-in object (possibly shared between environments): identity says nothing
+        ms_ = [m for m in markers.values() if vkind != "sameobject" or isinstance(m, Marker)]
         out = {}
         for k, v in coll.items():
-            out[k] = "U%d" % v.i if isinstance(v, Marker) and any(v is m for m in markers.values()) else "B"
+            hit = [j for j, m in enumerate(ms_) if v is m]
+            out[k] = "U%d" % hit[0] if hit else "B"
         return out
 
     one = lambda k, x: ([x] if k == "g" else [], [x] if k == "f" else [], [x] if k == "t" else [])  # noqa: E731
@@ -1552,6 +1656,25 @@ def run_env_stream(ctx, ask, root_ns, lctx, corpus):
                 cases.append((entry, False) + one(kind, n))
                 if ref.allow_possible and (kind == "g" or not ctx.quick):
                     cases.append((entry, True) + one(kind, n))
+    # ... and with the user's object being a callable NAMED like the built-in callable (a new function with the same __name__,
+    # a functools.partial of one, the very object of a reference environment): "it is the same function" must not be judged by
+    # name.  Per collection: the first name of every category with all three kinds; same-named functions for every 3rd name
+    # through the generator and every 6th through the builder, partials for every 9th (thorough: every name, both entries).
+    for kind in "gft":
+        names_k = sorted(builtin_names[kind])
+        firsts = {}
+        for n in names_k:
+            firsts.setdefault(g_ref.category(kind, n, reserved, lang_globals), n)
+        for i, n in enumerate(names_k):
+            rep = n in firsts.values()
+            for entry in BASE_ENTRIES:
+                every = (3 if entry == "generator" else 6) if ctx.quick else 1
+                if rep or (i + rot) % every == 0:
+                    cases.append((entry, False) + one(kind, n) + ("samename",))
+                if rep or (i + rot) % (9 if ctx.quick else 1) == 0:
+                    cases.append((entry, False) + one(kind, n) + ("partial",))
+                if rep:
+                    cases.append((entry, False) + one(kind, n) + ("sameobject",))
     for _ in range(40 if ctx.quick else 400):
         entry = rng.choice(["generator", "builder", "builder"] + [e for e in refs if e not in BASE_ENTRIES])
         allow = refs[entry].allow_possible and rng.random() < 0.4
@@ -1568,17 +1691,22 @@ def run_env_stream(ctx, ask, root_ns, lctx, corpus):
     for r in refs.values():
         r.attrs_field = ",".join(enc(a) + "=" + ("1" if getattr(r.loader_object, a, d) else "0") for a, d in attr_reads) or "~"
         r.sm_cfg = r.sm_fields()
-    for entry, allow, ug, uf, ut in cases:
+    for entry, allow, ug, uf, ut, *rest in cases:
+        vkind = rest[0] if rest else "marker"
         ref = refs[entry]
-        res, (mg, mf, mt) = build(entry, allow, ug, uf, ut)
+        res, (mg, mf, mt) = build(entry, allow, ug, uf, ut, vkind)
+        user_objs = list(mg.values()) + list(mf.values()) + list(mt.values())
+        is_user = lambda v: any(v is m for m in user_objs) and (vkind != "sameobject" or isinstance(v, Marker))  # noqa: E731
+        ctx.count("env-user-value=" + vkind)
         lines.append(f"env new {1 if allow else 0} {ref.cfg_fields} {ref.post_field} {enc_list(ug)} {enc_list(uf)} {enc_list(ut)}")
         sm_lines.append(f"envsm {ref.which} {1 if allow else 0} {ref.attrs_field} {ref.sm_cfg} {enc_list(ug)} {enc_list(uf)} {enc_list(ut)}")
         sm_flags.append(("1" if res[1]._allow_replacements else "0") if res[0] == "ok" else None)
         collides = any(n in ref.names["g"] for n in ug) or any(strip_prefix(n) in ref.names["f"] for n in uf) \
             or any(strip_prefix(n) in ref.names["t"] for n in ut)
-        ctx.case(("env", lang, entry, allow, tuple(ug), tuple(uf), tuple(ut)), collides or any("_" in n for n in uf + ut))
+        ctx.case(("env", lang, entry, allow, tuple(ug), tuple(uf), tuple(ut), vkind), collides or any("_" in n for n in uf + ut))
         ctx.count("env-entry=" + entry + (",allow" if allow else ""))
         rp = {"stream": "env", "language": lang, "entry": entry, "loader": ref.loader, "allow": allow, "globals": ug, "filters": uf, "tests": ut,
+              "user_value": vkind,
               "allow_replacements_assigned_at": ctx.extra.get("translator_env_ctor", {}).get("allow_assignments"),
               "allow_replacements_reads_inputs": ctx.extra.get("translator_env_ctor", {}).get("allow_inputs")}
         if res[0] == "err":
@@ -1586,7 +1714,7 @@ def run_env_stream(ctx, ask, root_ns, lctx, corpus):
             ctx.count("env-raised-" + res[1])
         else:
             env = res[1]
-            impls.append(("ok", owners(env.filters, mf), owners(env.tests, mt), owners(env.globals, mg)))
+            impls.append(("ok", owners(env.filters, mf, vkind), owners(env.tests, mt, vkind), owners(env.globals, mg, vkind)))
             ctx.count("env-constructed")
             # property: every name the environment defines without the additions keeps its built-in value (allow flag off):
             # (a) compared with the value in the reference environment, (b) it is not the user's object
@@ -1594,19 +1722,21 @@ def run_env_stream(ctx, ask, root_ns, lctx, corpus):
                 for cname, coll, rcoll in (("filters", env.filters, ref.env.filters), ("tests", env.tests, ref.env.tests), ("globals", env.globals, ref.env.globals)):
                     for k, r in rcoll.items():
                         v = coll.get(k, None)
-                        if isinstance(v, Marker) or k not in coll or type(v) is not type(r) or \
+                        if is_user(v) or k not in coll or type(v) is not type(r) or \
                                 (isinstance(r, (str, int, float, bool, tuple, type)) and v != r):
-                            if not isinstance(v, Marker):  # Marker cases are reported with a precise key below
+                            if not is_user(v):  # Marker cases are reported with a precise key below
                                 ctx.fail({"kind": "builtin-value-changed", "collection": cname},
                                          f"{cname}[{k!r}] is {v!r} after adding {ug + uf + ut}, {r!r} without additions", {**rp, "name": k})
                 for kind, coll, markers in (("f", env.filters, mf), ("t", env.tests, mt), ("g", env.globals, mg)):
                     for k, v in coll.items():
-                        if not isinstance(v, Marker):
+                        if not is_user(v):
                             continue
                         if k in ref.names[kind]:
                             what = ref.category(kind, k, reserved, lang_globals)
                             what = "nunavut" if what.startswith("nunavut") else what
                             key = {"kind": "silent-replacement", "collection": {"f": "filters", "t": "tests", "g": "globals"}[kind], "of": what}
+                            if vkind != "marker":
+                                key["user_object"] = "named-like-the-built-in-callable"
                             if entry not in BASE_ENTRIES:
                                 # the same collision is refused over another loader configuration?
                                 base = build("generator" if not entry.startswith("builder") else "builder", False, ug, uf, ut)[0]
@@ -1621,15 +1751,15 @@ def run_env_stream(ctx, ask, root_ns, lctx, corpus):
             if allow:
                 for k in sorted(reserved | set(lang_globals)):
                     r, v = ref.env.globals.get(k), env.globals.get(k)
-                    if isinstance(v, Marker) or k not in env.globals or type(v) is not type(r) or \
+                    if is_user(v) or k not in env.globals or type(v) is not type(r) or \
                             (isinstance(r, (str, int, float, bool, tuple, type)) and v != r):
-                        ctx.fail({"kind": "silent-replacement" if isinstance(v, Marker) else "builtin-value-changed", "collection": "globals",
+                        ctx.fail({"kind": "silent-replacement" if is_user(v) else "builtin-value-changed", "collection": "globals",
                                   "of": "reserved" if k in reserved else "language-global", "allow": True},
                                  f"with the allow flag on, additional global {k!r} replaced the {'reserved' if k in reserved else 'language'} global (value now {v!r})",
                                  {**rp, "allow": True, "replaced": k})
             # observation (not a replacement of a built-in): a user global the language globals overwrote
             for n in ug:
-                if n in lang_globals and not isinstance(env.globals.get(n), Marker):
+                if n in lang_globals and not is_user(env.globals.get(n)):
                     ctx.count("user-global-silently-dropped-by-language-global")
         metas.append((entry, allow, ug, uf, ut))
     both = [(ln, impl, meta, None) for ln, impl, meta in zip(lines, impls, metas) if meta[0] in BASE_ENTRIES] + \
@@ -1716,6 +1846,23 @@ def replay(ctx, path):
             listed = sorted(pathlib.Path(os.path.normpath(str(x))).name for x in ld.get_templates())
             print(json.dumps({"user_directories": rp["user_dirs"], "results": res, "expected_nearest": exp, "get_templates_lists": listed}))
             return 1 if got_stem != (exp[0] if exp else None) else 0
+        if rp.get("stream") == "generate":
+            ns_dir = ctx.scratch / "dsdl" / "vt"
+            ns_dir.mkdir(parents=True)
+            (ns_dir / "D.1.0.dsdl").write_text("uint8 x\n@extent 64\n")
+            (ns_dir / "DU.1.0.dsdl").write_text("@union\nuint8 a\nD.1.0 d\n@extent 256\n")
+            (ns_dir / "U.1.0.dsdl").write_text("@union\nuint8 a\nuint16 b\n@sealed\n")
+            (ns_dir / "S.1.0.dsdl").write_text("uint8 a\n@sealed\n")
+            (ns_dir / "Svc.1.0.dsdl").write_text("uint8 q\n@sealed\n---\nuint8 r\n@extent 64\n")
+            types = pydsdl.read_namespace(str(ns_dir), [])
+            res = generate_with_sentinels(ctx, types, ns_dir, rp["templates"], "r", rp.get("followlinks", False), rp.get("language", "c"))
+            bad = []
+            for t, got in res:
+                exp = expected_resolution(type(t), set(rp["templates"]), set())
+                if got != (exp[0] if exp else None):
+                    bad.append({"type": t.full_name, "class": type(t).__name__, "rendered_by": got, "expected": exp[0] if exp else None})
+            print(json.dumps({"templates": rp["templates"], "rendered": {t.full_name: got for t, got in res}, "wrong": bad}))
+            return 1 if bad else 0
         if rp.get("stream") == "tests-short-lived":
             import random
             from nunavut.lang import LanguageContextBuilder
